@@ -338,6 +338,14 @@ def function_given_through_module(
     return ".".join(parts) if isinstance(obj, FunctionType) else None
 
 
+def own_parameter_names(node: Any) -> List[str]:
+    """The names of the parameters of a function definition or lambda node."""
+    a = node.args
+    names = [x.arg for x in list(getattr(a, "posonlyargs", [])) + list(a.args) + list(a.kwonlyargs)]
+    names += [x.arg for x in (a.vararg, a.kwarg) if x is not None]
+    return names
+
+
 def visit_inner_scope(visitor: ast.NodeVisitor, node: Any, local_names: Set[Any]) -> None:
     """
     Visits a lambda or a function defined inside the analysed function. Its parameters are local names inside it
@@ -847,6 +855,10 @@ class InspectFunction(object):
         else:
             raise DDSException(f"unknown ast node {type(node)}")
         local_vars = set(cls.get_local_vars(body, arg_ctx, fun_path))
+        # The parameters written in the definition are local names of its body. For a function they are the keys of
+        # arg_ctx already; the methods of a class are analysed with the argument context of the constructor, which
+        # knows neither 'self' nor the method's own parameters.
+        local_vars |= set(LocalVar(n_) for n_ in own_parameter_names(node))
         # _logger.debug(f"inspect_fun: %s local_vars: %s", fun_path, local_vars)
         vdeps = ExternalVarsVisitor(mod, gctx, local_vars)
         for n in body:
